@@ -111,7 +111,8 @@ class FSM(object):
         Status: Mandatory
         """
         LOG.info('Manual stop')
-        if self.state == bgp_cons.ST_ESTABLISHED:
+        if self.state in (bgp_cons.ST_OPENSENT, bgp_cons.ST_OPENCONFIRM, bgp_cons.ST_ESTABLISHED):
+            # States OpenSent, OpenConfirm, Established, event 2
             self.protocol.send_notification(bgp_cons.ERR_CEASE, 0)
         # Stop all timers
         LOG.info('Stop all timers')
